@@ -22,30 +22,70 @@
         GHOST_RESET_COMMON();                                                                                          \
         __CPROVER_assume(DOMAIN);                                                                                      \
         uint64_t r = aws_timestamp_convert_u64(ticks, (OLDF), (NEWF), rem);                                            \
-        if (r == 0) CANARY(#NAME " zero result");                                                                      \
-        else if (HI_CANARY) CANARY(#NAME " top of range");                                                             \
+        if (HI_CANARY) CANARY(#NAME " top of range");                                                                  \
         else CANARY(#NAME " ordinary");                                                                                \
     }
 
+/* domains handed to the contract */
 #define FULL 1
-/* same unit, and conversions to a finer unit: the result can saturate */
-H_CONV(s_s, S, S, FULL, r == UINT64_MAX)
-H_CONV(ms_ms, MS, MS, FULL, r == UINT64_MAX)
-H_CONV(us_us, US, US, FULL, r == UINT64_MAX)
-H_CONV(ns_ns, NS, NS, FULL, r == UINT64_MAX)
-H_CONV(s_ms, S, MS, FULL, r == UINT64_MAX)
-H_CONV(s_us, S, US, FULL, r == UINT64_MAX)
-H_CONV(s_ns, S, NS, FULL, r == UINT64_MAX)
-H_CONV(ms_us, MS, US, FULL, r == UINT64_MAX)
-H_CONV(ms_ns, MS, NS, FULL, r == UINT64_MAX)
-H_CONV(us_ns, US, NS, FULL, r == UINT64_MAX)
-/* conversions to a coarser unit: never saturates; top of range = the largest possible quotient */
-H_CONV(ms_s, MS, S, FULL, r == UINT64_MAX / 1000ULL)
-H_CONV(us_s, US, S, FULL, r == UINT64_MAX / 1000000ULL)
-H_CONV(ns_s, NS, S, FULL, r == UINT64_MAX / 1000000000ULL)
-H_CONV(us_ms, US, MS, FULL, r == UINT64_MAX / 1000ULL)
-H_CONV(ns_ms, NS, MS, FULL, r == UINT64_MAX / 1000000ULL)
-H_CONV(ns_us, NS, US, FULL, r == UINT64_MAX / 1000ULL)
+/* bounded stand-ins: windows of 2^16 consecutive tick values
+ *   LOW  : [0, 2^16)
+ *   MID  : 2^32 +- 2^15   (the 32-bit boundary)
+ *   TOP  : the last 2^15 values of the domain
+ *   EDGE : +-2^15 around the saturation threshold floor(MAX/ratio) (ratio = new/old > 1), and TOP */
+#define WIN 32768ULL
+#define LOW (ticks < 2 * WIN)
+#define MID (ticks >= (1ULL << 32) - WIN && ticks < (1ULL << 32) + WIN)
+#define TOP (ticks >= UINT64_MAX - WIN)
+#define EDGE(ratio) ((ticks >= UINT64_MAX / (ratio) - WIN && ticks <= UINT64_MAX / (ratio) + WIN) || TOP)
+
+/* X(name, old, new, ratio new/old or 0, canary for the top of the result range) */
+#define PAIRS(X)                                                                                                       \
+    X(s_s, S, S, 0, r == UINT64_MAX)                                                                                   \
+    X(ms_ms, MS, MS, 0, r == UINT64_MAX)                                                                               \
+    X(us_us, US, US, 0, r == UINT64_MAX)                                                                               \
+    X(ns_ns, NS, NS, 0, r == UINT64_MAX)                                                                               \
+    X(s_ms, S, MS, 1000ULL, r == UINT64_MAX)                                                                           \
+    X(s_us, S, US, 1000000ULL, r == UINT64_MAX)                                                                        \
+    X(s_ns, S, NS, 1000000000ULL, r == UINT64_MAX)                                                                     \
+    X(ms_us, MS, US, 1000ULL, r == UINT64_MAX)                                                                         \
+    X(ms_ns, MS, NS, 1000000ULL, r == UINT64_MAX)                                                                      \
+    X(us_ns, US, NS, 1000ULL, r == UINT64_MAX)                                                                         \
+    X(ms_s, MS, S, 0, r == UINT64_MAX / 1000ULL)                                                                       \
+    X(us_s, US, S, 0, r == UINT64_MAX / 1000000ULL)                                                                    \
+    X(ns_s, NS, S, 0, r == UINT64_MAX / 1000000000ULL)                                                                 \
+    X(us_ms, US, MS, 0, r == UINT64_MAX / 1000ULL)                                                                     \
+    X(ns_ms, NS, MS, 0, r == UINT64_MAX / 1000000ULL)                                                                  \
+    X(ns_us, NS, US, 0, r == UINT64_MAX / 1000ULL)
+
+#define X_FULL(n, o, w, ratio, hi) H_CONV(n, o, w, FULL, hi)
+/* window units: the result may be constant inside a window, so the canaries sit on the harness's own input */
+#define X_LOW(n, o, w, ratio, hi) H_CONV(n##_low, o, w, LOW, ticks & 1)
+#define X_MID(n, o, w, ratio, hi) H_CONV(n##_mid, o, w, MID, ticks & 1)
+#define X_EDGE(n, o, w, ratio, hi) H_CONV(n##_edge, o, w, ((ratio) ? EDGE((ratio) ? (ratio) : 1) : TOP), ticks & 1)
+PAIRS(X_FULL)
+PAIRS(X_LOW)
+PAIRS(X_MID)
+PAIRS(X_EDGE)
+
+/* symbolic frequencies (bounded stand-in): both frequencies in [1, FMAX], ticks < TMAX */
+#ifndef FMAX
+#    define FMAX 64
+#endif
+#ifndef TMAX
+#    define TMAX 4096
+#endif
+void h_conv_freq_small(void) {
+    uint64_t ticks, oldf, newf;
+    uint64_t *rem;
+    GHOST_RESET_COMMON();
+    __CPROVER_assume(oldf >= 1 && oldf <= FMAX && newf >= 1 && newf <= FMAX && ticks < TMAX);
+    uint64_t r = aws_timestamp_convert_u64(ticks, oldf, newf, rem);
+    if (newf < oldf && oldf % newf == 0) CANARY("freq divisible down-conversion");
+    else if (newf < oldf) CANARY("freq non-divisible down-conversion");
+    else if (newf == oldf) CANARY("freq equal");
+    else CANARY("freq up-conversion");
+}
 
 /* the enum front end: every pair of the four units at once (dispatch only; the arithmetic is the callee's contract) */
 void h_convert_enum(void) {
